@@ -7,7 +7,7 @@ from sa.astx import body_walk, call_attr, call_name, dotted, src
 from sa.effects import class_accesses
 from sa.selftest import Mutant, Silent
 from sa.source import methods
-from sa.props._lib_c import (anchor_methods, section, all_funcs_of_class, assign_pairs, enclosing, eq_test, gfind, guarded_eq, guarded_ne, guarded_none, guarded_not_none,
+from sa.props._lib_c import (norm_class, resolve_name_test, anchor_methods, section, all_funcs_of_class, assign_pairs, enclosing, eq_test, gfind, guarded_eq, guarded_ne, guarded_none, guarded_not_none,
                              is_const, is_none_test, may_mutate, must_pass, nested_defs, no_exc, parents, self_attr)
 
 PROPERTY = "C11"
@@ -27,6 +27,9 @@ EXPLANATION = (
     "before the termination predicate is consulted. Not decided: the starvation bound itself, behaviour of user iterators/callbacks."
 )
 ASSUMPTIONS = [
+    "rules read a normalised copy of the class: a private non-generator method that is not an anchor, is only ever called as self._h(...) "
+    "inside its class and is mentioned in no other module is inlined at its call sites; single-assignment naming temporaries are substituted "
+    "only where nothing they read is written (and no call runs) in between",
     "a list iterator over _tasks yields only elements currently in the list (CPython list semantics)",
     "the scheduler callable eventually calls the function it is given once",
 ]
@@ -56,10 +59,13 @@ def _state_none_guard(g, n, recv):
 
 def check(ctx):
     mod = ctx.mod(TASK)
-    task = ctx.cls(TASK, "CooperativeTask")
-    coop = ctx.cls(TASK, "Cooperator")
-    tm = anchor_methods(ctx, TASK, task, ("pause", "resume", "stop", "_completeWith", "_checkFinish", "_oneWorkUnit", "whenDone", "__init__"))
-    cm = anchor_methods(ctx, TASK, coop, ("_addTask", "_removeTask", "_tasksWhileNotStopped", "_tick", "_reschedule", "stop", "coiterate", "start"))
+    TK = ("pause", "resume", "stop", "_completeWith", "_checkFinish", "_oneWorkUnit", "whenDone", "__init__")
+    CK = ("_addTask", "_removeTask", "_tick", "_reschedule", "stop", "coiterate", "start", "cooperate", "__init__")
+    # normalised view: private helpers that are not anchors are inlined, naming temporaries substituted (see _lib_c.norm_class)
+    task = norm_class(ctx, TASK, "CooperativeTask", TK)
+    coop = norm_class(ctx, TASK, "Cooperator", CK + ("_tasksWhileNotStopped",))
+    tm = anchor_methods(ctx, TASK, task, TK)
+    cm = anchor_methods(ctx, TASK, coop, CK[:7])
     funcs = [("CooperativeTask", q, f) for q, f in all_funcs_of_class(task)] + [("Cooperator", q, f) for q, f in all_funcs_of_class(coop)]
 
     # ---- _checkFinish raises the stored state; pause/stop start with it -------------------------------------------
@@ -102,31 +108,40 @@ def check(ctx):
                   "pause() does not increment _pauseCount by exactly one")
         rem = gfind(g, lambda x: _is_call(x, "self._cooperator._removeTask"))
         ctx.check(bool(rem), "pause/leaves-runnable-set", q, "pause() never removes the task from the cooperator: a paused task keeps being advanced")
+        def transition_tests():
+            """[(test node, label of the edge meaning 'this pause is the 0->1 transition')]: `count == 1` evaluated after the
+            increment, or `count == 0` evaluated before it; the test may be a named temporary (evaluated where it is assigned)."""
+            out = []
+            for t in g.ids(lambda n: n.kind == "test"):
+                expr, defst = resolve_name_test(f, g.node(t).ast)
+                evalnodes = g.ids_of(defst) if defst is not None else [t]
+                if not evalnodes or not incs:
+                    continue
+                after_inc = g.must_precede(incs, evalnodes) is None
+                before_inc = g.path(incs, evalnodes) is None and g.path(evalnodes, incs, edge_ok=no_exc) is not None
+                k1, k0 = eq_test(expr, "self._pauseCount", 1), eq_test(expr, "self._pauseCount", 0)
+                if k1 is not None and after_inc:
+                    out.append((t, "T" if k1 else "F"))
+                elif k0 is not None and before_inc:
+                    out.append((t, "T" if k0 else "F"))
+            return out
+        trans = transition_tests()
         for n in rem:
-            key = ctx.construct(q, g.node(n).ast)
-            ok = guarded_eq(g, n, "self._pauseCount", 1) and bool(incs) and g.must_precede(incs, [n]) is None
-            if not ok:  # equivalent spelling: test the old value (== 0) before the increment
-                ok = guarded_eq(g, n, "self._pauseCount", 0) and bool(incs) and g.path(incs, [n]) is None and g.path([n], incs, edge_ok=no_exc) is not None
+            key = ctx.construct(q, "<remove from the runnable set>")
+            eg = g.edge_guards(n)
+            ok = any((t, lab) in eg for t, lab in trans)
             ctx.check(ok, "pause/leaves-runnable-set", key, "_removeTask is not tied to the 0->1 transition of _pauseCount (nested pause removes twice: ValueError, "
                       "or the first pause does not remove)")
             call = next(x for x in ast.walk(g.node(n).ast) if _is_call(x, "self._cooperator._removeTask"))
             ctx.check(len(call.args) == 1 and src(call.args[0]) == "self", "pause/leaves-runnable-set", key, "_removeTask not applied to this task")
-        cnt_tests = [t for t in g.ids(lambda n: n.kind == "test") if eq_test(g.node(t).ast, "self._pauseCount", 1) is not None]
-        pre_tests = [t for t in g.ids(lambda n: n.kind == "test") if eq_test(g.node(t).ast, "self._pauseCount", 0) is not None and g.path([t], incs) is not None]
-        for t in pre_tests:
-            lab = "T" if eq_test(g.node(t).ast, "self._pauseCount", 0) else "F"
+        ctx.check(bool(trans), "pause/leaves-runnable-set", q + " | <transition test>", "pause() does not distinguish the first pause (0->1) from nested ones")
+        for t, lab in trans:
             w = must_pass(g, [d for d, l in g.succ[t] if l == lab], rem, exc=False)
-            ctx.check(w is None, "pause/leaves-runnable-set", q + " | <count was 0>", "the first pause() can return with the task still runnable", witness=g.describe(w))
-        for i in (incs if not pre_tests else []):
-            s = [d for d, l in g.succ[i] if l != "exc"]
-            w = must_pass(g, s, rem + cnt_tests, exc=False)
-            ctx.check(w is None, "pause/leaves-runnable-set", q + " | <after increment>", "after the increment pause() can return without deciding about removal",
-                      witness=g.describe(w))
-        for t in cnt_tests:
-            lab = "T" if eq_test(g.node(t).ast, "self._pauseCount", 1) else "F"
-            s = [d for d, l in g.succ[t] if l == lab]
-            w = must_pass(g, s, rem, exc=False)
-            ctx.check(w is None, "pause/leaves-runnable-set", q + " | <count reaches 1>", "the first pause() can return with the task still runnable", witness=g.describe(w))
+            ctx.check(w is None, "pause/leaves-runnable-set", q + " | <first pause>", "the first pause() can return with the task still runnable", witness=g.describe(w))
+        w = must_pass(g, incs, rem + [t for t, _ in trans], exc=False) if incs else None
+        w2 = must_pass(g, [g.entry], rem + [t for t, _ in trans], exc=False)
+        ctx.check(w is None or w2 is None, "pause/leaves-runnable-set", q + " | <every pause decides>", "pause() can return without deciding about removal",
+                  witness=g.describe(w))
 
     # ---- resume --------------------
     with section(ctx, 'resume'):
@@ -212,6 +227,8 @@ def check(ctx):
             for c in sites:
                 nsites += 1
                 key = ctx.construct(fq, c)
+                if qn.startswith("CooperativeTask._oneWorkUnit.") and len(c.args) == 2 and src(c.args[0]) == "TaskFailed()" and isinstance(c.args[1], ast.Name):
+                    key = f"{QT}._oneWorkUnit | <errback of the yielded Deferred completes the task as failed>"
                 recv = src(c.func.value)
                 ns = gf.ids_of(c) if not isinstance(fn, ast.Lambda) else [n.id for n in gf.nodes if n.kind == "stmt"]
                 ok = once_guarded
@@ -395,7 +412,11 @@ def check(ctx):
                         if isinstance(p, ast.For) and isinstance(p.target, ast.Name) and p.target.id == src(c.func.value):
                             loop = p
                             break
-                    ctx.check(qn == "Cooperator._tick" and loop is not None and src(loop.iter) == "self._tasksWhileNotStopped()", "advance/only-runnable", key,
+                    walkers_ = [nm for nm, fx in methods(coop).items() if any(isinstance(x, ast.For) and src(x.iter) == "self._metarator" for x in body_walk(fx))]
+                    gens_ = [nm for nm in walkers_ if any(isinstance(x, ast.Yield) for x in body_walk(methods(coop)[nm]))]
+                    ok_site = loop is not None and qn == "Cooperator._tick" and (
+                        (src(loop.iter) == "self._metarator" and "_tick" in walkers_) or any(src(loop.iter) == f"self.{nm}()" for nm in gens_))
+                    ctx.check(ok_site, "advance/only-runnable", key,
                               "a task is advanced outside the tick's walk over the runnable set (it may be paused, finished or waiting)")
                 if call_attr(c) == "_addTask":
                     key = ctx.construct(f"twisted.internet.task.{qn}", c)
@@ -493,42 +514,50 @@ def check(ctx):
 
     # ---- round robin --------------------
     with section(ctx, 'round robin'):
-        f = cm["_tasksWhileNotStopped"]
-        ctx.functions.add(f"{TASK}:Cooperator._tasksWhileNotStopped")
-        g = ctx.cfg(f)
-        q = f"{QC}._tasksWhileNotStopped"
-        heads = g.ids(lambda n: n.kind == "for" and src(n.ast.iter) == "self._metarator")
-        ctx.check(len(heads) == 1, "fair/round-robin-iterator", q, "the walk over the runnable set no longer consumes the persistent iterator self._metarator "
+        # the walk over the runnable set lives in whichever Cooperator method iterates self._metarator: the generator
+        # _tasksWhileNotStopped (consumed by _tick) or _tick itself; "advancing" a task is `yield t` there, or t._oneWorkUnit()
+        walkers = [(nm, fx) for nm, fx in methods(coop).items() if any(isinstance(x, ast.For) and src(x.iter) == "self._metarator" for x in body_walk(fx))]
+        ctx.check(len(walkers) == 1, "fair/round-robin-iterator", f"{QC} | <walk over the runnable set>",
+                  "the walk over the runnable set no longer consumes the persistent iterator self._metarator "
                   "(restarting from the head each tick starves the tasks at the tail whenever the predicate ends the tick early)")
-        renew = g.ids(lambda n: n.kind == "stmt" and any(self_attr(t, "_metarator") for t, v in assign_pairs(n.ast)))
-        for n in renew:
-            key = ctx.construct(q, g.node(n).ast)
-            v = next(v for t, v in assign_pairs(g.node(n).ast) if self_attr(t, "_metarator"))
-            ctx.check(isinstance(v, ast.Call) and dotted(v.func) == "iter" and len(v.args) == 1 and src(v.args[0]) == "self._tasks", "fair/round-robin-iterator", key,
-                      "the round-robin iterator is not built over the live runnable list (paused/finished tasks would be advanced, new ones missed)")
-            preds = [(s, l) for s, l in g.pred[n] if l != "exc"]
-            ok = bool(heads) and bool(preds) and all(s in heads and l == "done" for s, l in preds)
-            ctx.check(ok, "fair/renew-only-when-exhausted", key,
-                      "the round-robin iterator is renewed before the previous round is exhausted: tasks late in the list are starved when ticks end early")
-        ctx.check(bool(renew), "fair/renew-only-when-exhausted", q + " | <renew>", "the round-robin iterator is never renewed: after one round no task is advanced")
-        for other in [a for a in class_accesses(mod, coop, {"_metarator"}, receivers={"self"}) if a.func not in ("Cooperator.__init__", "Cooperator._tasksWhileNotStopped")]:
-            ctx.violation("fair/renew-only-when-exhausted", ctx.construct(f"twisted.internet.task.{other.func}", other.node), "the round-robin iterator is reset outside the walk")
-        yields = gfind(g, lambda x: isinstance(x, ast.Yield))
-        tterm = [t for t in g.ids(lambda n: n.kind == "test" and isinstance(n.ast, ast.Call))]
-        for h in heads:
-            loopvar = src(g.node(h).ast.target)
-            ctx.check(bool(yields) and all(src(y.value) == loopvar for n in yields for y in ast.walk(g.node(n).ast) if isinstance(y, ast.Yield)), "fair/yields-runnable", q,
-                      "the generator does not yield the task taken from the round-robin iterator")
-            it = [d for d, l in g.succ[h] if l == "iter"]
-            it0 = [n for n in it if n not in yields]
-            w = g.path(it0, tterm, avoid=set(yields) | {h}) if tterm and it0 else None
-            ctx.check(w is None, "fair/progress-before-predicate", q + " | <termination predicate>",
-                      "the termination predicate is consulted before a task has been advanced in this round: with a predicate that is already true "
-                      "(a tick started late) no task ever makes progress", witness=g.describe(w))
-            w = must_pass(g, it, yields, to=[h, g.exit], exc=False)
-            ctx.check(w is None, "fair/yields-runnable", q + " | <every element>", "a task taken from the iterator can be skipped without being advanced", witness=g.describe(w))
-        wl = g.ids(lambda n: n.kind == "test" and src(n.ast) == "self._tasks")
-        ctx.check(bool(wl), "fair/stops-when-empty", q, "the walk does not terminate when the runnable set is empty (busy loop) or never starts")
+        walk_name = walkers[0][0] if walkers else None
+        for walk_name, f in walkers[:1]:
+            ctx.functions.add(f"{TASK}:Cooperator.{walk_name}")
+            g = ctx.cfg(f)
+            q = f"{QC}.{walk_name}"
+            heads = g.ids(lambda n: n.kind == "for" and src(n.ast.iter) == "self._metarator")
+            ctx.check(len(heads) == 1, "fair/round-robin-iterator", q, "several loops consume the round-robin iterator")
+            renew = g.ids(lambda n: n.kind == "stmt" and any(self_attr(t, "_metarator") for t, v in assign_pairs(n.ast)))
+            for n in renew:
+                key = ctx.construct(q, "<renew the round-robin iterator>")
+                v = next(v for t, v in assign_pairs(g.node(n).ast) if self_attr(t, "_metarator"))
+                ctx.check(isinstance(v, ast.Call) and dotted(v.func) == "iter" and len(v.args) == 1 and src(v.args[0]) == "self._tasks", "fair/round-robin-iterator", key,
+                          "the round-robin iterator is not built over the live runnable list (paused/finished tasks would be advanced, new ones missed)")
+                preds = [(s_, l) for s_, l in g.pred[n] if l != "exc"]
+                ok = bool(heads) and bool(preds) and all(s_ in heads and l == "done" for s_, l in preds)
+                ctx.check(ok, "fair/renew-only-when-exhausted", key,
+                          "the round-robin iterator is renewed before the previous round is exhausted: tasks late in the list are starved when ticks end early")
+            ctx.check(bool(renew), "fair/renew-only-when-exhausted", q + " | <renew>", "the round-robin iterator is never renewed: after one round no task is advanced")
+            for other in [a for a in class_accesses(mod, coop, {"_metarator"}, receivers={"self"}) if a.func not in ("Cooperator.__init__", f"Cooperator.{walk_name}")]:
+                ctx.violation("fair/renew-only-when-exhausted", ctx.construct(f"twisted.internet.task.{other.func}", other.node), "the round-robin iterator is reset outside the walk")
+            preds_ = {t.id for st in body_walk(f) for t, v in assign_pairs(st) if isinstance(t, ast.Name) and isinstance(v, ast.Call) and "_terminationPredicateFactory" in src(v.func)}
+            tterm = [t for t in g.ids(lambda n: n.kind == "test" and isinstance(n.ast, ast.Call) and (isinstance(n.ast.func, ast.Name) and (n.ast.func.id in preds_ or not preds_)))]
+            for h in heads:
+                loopvar = src(g.node(h).ast.target)
+                adv = gfind(g, lambda x: (isinstance(x, ast.Yield) and x.value is not None and src(x.value) == loopvar) or
+                            (isinstance(x, ast.Call) and call_attr(x) == "_oneWorkUnit" and src(x.func.value) == loopvar))
+                bad_y = gfind(g, lambda x: isinstance(x, ast.Yield) and (x.value is None or src(x.value) != loopvar))
+                ctx.check(bool(adv) and not bad_y, "fair/yields-runnable", q, "the walk does not advance / yield the task taken from the round-robin iterator")
+                it = [d for d, l in g.succ[h] if l == "iter"]
+                it0 = [n for n in it if n not in adv]
+                w = g.path(it0, tterm, avoid=set(adv) | {h}) if tterm and it0 else None
+                ctx.check(w is None, "fair/progress-before-predicate", q + " | <termination predicate>",
+                          "the termination predicate is consulted before a task has been advanced in this round: with a predicate that is already true "
+                          "(a tick started late) no task ever makes progress", witness=g.describe(w))
+                w = must_pass(g, it, adv, to=[h, g.exit], exc=False)
+                ctx.check(w is None, "fair/yields-runnable", q + " | <every element>", "a task taken from the iterator can be skipped without being advanced", witness=g.describe(w))
+            wl = g.ids(lambda n: n.kind == "test" and src(n.ast) == "self._tasks")
+            ctx.check(bool(wl), "fair/stops-when-empty", q, "the walk does not terminate when the runnable set is empty (busy loop) or never starts")
 
     # ---- Cooperator._tick --------------------
     with section(ctx, 'Cooperator._tick'):
@@ -606,7 +635,9 @@ def check(ctx):
                 nloops += 1
                 calls = [c for st in loop.body for c in ast.walk(st) if isinstance(c, ast.Call)]
                 chain = may_mutate([task, coop], calls, "_tasks", kinds={"remove", "append", "pop_first", "pop_last", "pop_key", "insert", "insert0", "clear", "del-prefix", "delitem", "extend"})
-                ctx.check(chain is None, "iterate/not-while-mutating", ctx.construct(f"twisted.internet.task.{qn}", f"for {src(loop.target)} in {src(loop.iter)}"),
+                lkey = ctx.construct(f"twisted.internet.task.{qn}", "<loop over the live runnable list completing every task>" if chain and "_completeWith" in chain
+                                     else f"for {src(loop.target)} in {src(loop.iter)}")
+                ctx.check(chain is None, "iterate/not-while-mutating", lkey,
                           "the loop iterates the live runnable list while its body removes from it (" + " -> ".join(chain or []) + "): every other task is skipped; "
                           "the skipped tasks are never completed, their whenDone/coiterate Deferreds never fire")
 
@@ -705,4 +736,28 @@ SILENT = [
            "                def resumeLater(value: object) -> None:\n                    self.resume()\n\n                result.addCallbacks(resumeLater, failLater)\n"),
     Silent("whenDone-branches-inverted", TASK, "        if self._completionState is None:\n            self._deferreds.append(d)\n        else:\n            assert self._completionResult is not None\n            d.callback(self._completionResult)\n",
            "        if self._completionState is not None:\n            assert self._completionResult is not None\n            d.callback(self._completionResult)\n        else:\n            self._deferreds.append(d)\n"),
+
+    # --- shapes of the independent refactor set
+    Silent("deferred-branch-in-private-helper", TASK,
+           "                self.pause()\n\n                def failLater(failure: Failure) -> None:\n                    self._completeWith(TaskFailed(), failure)\n\n                result.addCallbacks(lambda result: self.resume(), failLater)\n",
+           "                self._suspendUntil(result)\n",
+           more=[(TASK, "    def _oneWorkUnit(self) -> None:\n", "    def _suspendUntil(self, pending) -> None:\n        self.pause()\n\n        def wake(value: object) -> None:\n            self.resume()\n\n"
+                  "        def fail(reason: Failure) -> None:\n            self._completeWith(TaskFailed(), reason)\n\n        pending.addCallbacks(wake, fail)\n\n    def _oneWorkUnit(self) -> None:\n")]),
+    Silent("generator-inlined-into-tick", TASK,
+           "        self._delayedCall = None\n        for taskObj in self._tasksWhileNotStopped():\n            taskObj._oneWorkUnit()\n        self._reschedule()\n",
+           "        self._delayedCall = None\n        enough = self._terminationPredicateFactory()\n        finished = False\n        while self._tasks and not finished:\n            for current in self._metarator:\n"
+           "                current._oneWorkUnit()\n                if enough():\n                    finished = True\n                    break\n            else:\n                self._metarator = iter(self._tasks)\n        self._reschedule()\n",
+           more=[(TASK, "        terminator = self._terminationPredicateFactory()\n        while self._tasks:\n            for t in self._metarator:\n                yield t\n                if terminator():\n                    return\n            self._metarator = iter(self._tasks)\n",
+                  "        return iter(())\n")]),
+    Silent("named-temporaries-and-guard-clauses", TASK, "        if self._completionState is not None:\n            raise self._completionState\n",
+           "        state = self._completionState\n        if state is None:\n            return\n        raise state\n",
+           more=[(TASK, "        self._pauseCount += 1\n        if self._pauseCount == 1:\n            self._cooperator._removeTask(self)\n",
+                  "        firstPause = self._pauseCount == 0\n        self._pauseCount += 1\n        if firstPause:\n            self._cooperator._removeTask(self)\n"),
+                 (TASK, "        if not self._pauseCount:\n            self._cooperator._removeTask(self)\n", "        running = self._pauseCount == 0\n        if running:\n            self._cooperator._removeTask(self)\n")]),
+    Silent("scheduler-stopped-helper-and-split-conditions", TASK, _STOPLOOP,
+           "        for taskObj in self._tasks:\n            self._rejectStopped(taskObj)\n        self._tasks = []\n",
+           more=[(TASK, "            task._completeWith(SchedulerStopped(), Failure(SchedulerStopped()))\n        else:\n", "            self._rejectStopped(task)\n        else:\n"),
+                 (TASK, "    def _removeTask(self, task: CooperativeTask) -> None:\n", "    def _rejectStopped(self, task: CooperativeTask) -> None:\n        reason = SchedulerStopped()\n        task._completeWith(reason, Failure(SchedulerStopped()))\n\n    def _removeTask(self, task: CooperativeTask) -> None:\n"),
+                 (TASK, "        if not self._tasks and self._delayedCall:\n            self._delayedCall.cancel()\n            self._delayedCall = None\n",
+                  "        if self._tasks:\n            return\n        pending = self._delayedCall\n        if pending:\n            pending.cancel()\n            self._delayedCall = None\n")]),
 ]
